@@ -41,7 +41,9 @@ Proof.
   cbn [run step]. rewrite Eq. reflexivity.
 Qed.
 
-(* D10: on 2x2,  Pr = "😀l" CUP(1,2)   Sc = Pr then "y" *)
+(* D10 (repaired): on 2x2,  Pr = "😀l" CUP(1,2)   Sc = Pr then "y".
+   Before the repair of Grid::write_contents_diff (Emit.clears_wrap) the receiver lost the wrap flag of
+   row 0 on this pair; DiffHistory.v keeps the old loop and the refutation as a regression witness. *)
 Definition d10_P : list N := [240;159;152;128;108;27;91;49;59;50;72].
 Definition d10_S : list N := d10_P ++ [121].
 
@@ -50,7 +52,7 @@ Definition obs_eqb_rows (a b : list row) : bool :=
      (len (cells (fst p)) =? len (cells (snd p))) &&
      forallb (fun q : cell * cell => cell_eqb (fst q) (snd q)) (zip (cells (fst p)) (cells (snd p)))) (zip a b).
 
-(* the two observations differ exactly in the wrap flag of row 0 *)
+(* rows (cells and flags) of the two observations, and the two lists of wrap flags *)
 Definition d10_check : res (bool * list bool * list bool) :=
   do Pr <- after 2 2 d10_P;
   do Sc <- after 2 2 d10_S;
@@ -59,22 +61,22 @@ Definition d10_check : res (bool * list bool * list bool) :=
   do o2 <- obs Sc;
   Ok (obs_eqb_rows (o_vis o1) (o_vis o2), map wrapped (o_vis o1), map wrapped (o_vis o2)).
 
-Lemma d10_check_value : d10_check = Ok (false, [false; false], [true; false]).
+(* the witness now round-trips: the receiver keeps the wrap flag of row 0 *)
+Lemma d10_check_value : d10_check = Ok (true, [true; false], [true; false]).
 Proof. vm_compute. reflexivity. Qed.
 
-Theorem diff_round_refuted : exists Pr Sc,
-  reachable Pr /\ reachable Sc /\ grows (cur Pr) = grows (cur Sc) /\ gcols (cur Pr) = gcols (cur Sc) /\
-  ~ diff_round_ok Pr Sc.
+Theorem d10_round_trips : exists Pr Sc,
+  after 2 2 d10_P = Ok Pr /\ after 2 2 d10_S = Ok Sc /\ reachable Pr /\ reachable Sc /\ diff_round_ok Pr Sc.
 Proof.
   destruct (after 2 2 d10_P) as [Pr|] eqn:EP; [|vm_compute in EP; discriminate].
   destruct (after 2 2 d10_S) as [Sc|] eqn:ES; [|vm_compute in ES; discriminate].
   exists Pr, Sc.
   assert (1 <= 2 <= MAXDIM) as H2 by (unfold MAXDIM; lia).
+  split; [reflexivity|]. split; [reflexivity|].
   split; [eapply after_reachable; [exact H2|exact H2|exact EP]|].
   split; [eapply after_reachable; [exact H2|exact H2|exact ES]|].
   vm_compute in EP. vm_compute in ES. inv EP. inv ES.
-  split; [reflexivity|]. split; [reflexivity|].
-  intros (r & o & Er & Eo & Es). vm_compute in Er. inv Er. vm_compute in Eo. inv Eo. vm_compute in Es. discriminate.
+  unfold diff_round_ok. eexists. eexists. split; [vm_compute; reflexivity|]. split; vm_compute; reflexivity.
 Qed.
 
 (* ---- equal observations: the diff is empty and the receiver is left alone ---- *)
@@ -102,8 +104,8 @@ Lemma diff_round_equal_obs Pr Sc o r : reachable Sc -> reachable Pr -> obs Sc = 
   reproduce Pr = Ok r -> diff_round Pr Sc = Ok r.
 Proof.
   intros HS HP ES EP Er. unfold diff_round. rewrite Er. cbn [bind].
-  destruct (reachable_inv _ HS) as (KS & _). destruct (reachable_inv _ HP) as (KP & _).
-  destruct (ObsSpec.C19_obsdiff Sc Pr o KS KP ES EP) as (_ & -> & _). cbn [bind ser_all flat_map].
+  destruct (reachable_inv _ HS) as (KS & WS & _). destruct (reachable_inv _ HP) as (KP & _).
+  destruct (ObsSpec.C19_obsdiff Sc Pr o KS WS KP ES EP) as (_ & -> & _). cbn [bind ser_all flat_map].
   apply process_nil. apply (reproduce_ground Pr r HP Er).
 Qed.
 
